@@ -456,23 +456,23 @@ def _judge(case, stats, info):
         return "{" + ", ".join("%s:0x%x" % (t, o) for o, t in sorted(d.items())) + "}"
 
     def cut_by_lines_wd(b):
-        """b (no flow instruction) was cut by the line watchdog, possibly before being split"""
+        """b (no flow instruction, no successor) is the tail of a block cut by the line watchdog and split
+        afterwards: some chain of fall-through pieces ending with b holds lines_wd lines"""
         if lines_wd is None:
             return False
-        cum = len(b.lines)
-        cur = b
-        while cum < lines_wd:
-            prev = None
+
+        def search(cur, cum, depth):
+            if cum >= lines_wd:
+                return cum == lines_wd
+            if depth > 64:
+                return False
             for p in good:
                 if p is not cur and flowidx[offs(p.loc_key)] is None and end_of(p) == offs(cur.loc_key) \
                         and bto_of(p) == {offs(cur.loc_key): C_NEXT}:
-                    prev = p
-                    break
-            if prev is None:
-                return False
-            cum += len(prev.lines)
-            cur = prev
-        return True
+                    if search(p, cum + len(p.lines), depth + 1):
+                        return True
+            return False
+        return search(b, len(b.lines), 0)
 
     # (d) successors
     nsplit = 0
